@@ -46,7 +46,7 @@ def run_pair(L, i, j, S_lo, S_hi, zero=False):
 
 def worker(t):
     prog = H.get_program()
-    S.BITS_MODE[:] = ['uf', 128]
+    S.BITS_MODE[:] = ['ladder', 192]        # exact bit-length facts (the pinned code of this property never asks for bits() of a symbolic integer; rewrites might)
     saved = list(E.DEFAULT_OVERRIDES)
     try:
         # digit counting (not used by the pinned Hash, but by plausible rewrites of it) by its contract, as in C06/C07/C08
